@@ -115,6 +115,7 @@ def build_harness(log):
 
 
 def build_lean(targets, log):
+    os.makedirs(CACHE, exist_ok=True)
     with open(os.path.join(CACHE, "lean.lock"), "w") as lock:
         fcntl.flock(lock, fcntl.LOCK_EX)
         p = subprocess.run(["lake", "build"] + targets, cwd=LEAN, stdout=subprocess.PIPE,
